@@ -534,6 +534,43 @@ pub mod sstable {
 	}
 }
 
+/// A settable clock for the store (C10 / C14): commit timestamps and retention ages become
+/// deterministic.
+pub mod clock {
+	use std::sync::atomic::{AtomicU64, Ordering};
+	use std::sync::Arc;
+
+	use crate::clock::LogicalClock;
+	use crate::Options;
+
+	#[derive(Debug)]
+	struct Settable(Arc<AtomicU64>);
+	impl LogicalClock for Settable {
+		fn now(&self) -> u64 {
+			self.0.load(Ordering::SeqCst)
+		}
+	}
+
+	#[derive(Clone)]
+	pub struct Handle(Arc<AtomicU64>);
+	impl Handle {
+		pub fn set(&self, t: u64) {
+			self.0.store(t, Ordering::SeqCst);
+		}
+		/// installs this clock into another `Options` (e.g. for a reopen)
+		pub fn install_into(&self, opts: &mut Options) {
+			opts.clock = Arc::new(Settable(Arc::clone(&self.0)));
+		}
+	}
+
+	/// Replaces the clock of `opts` by one that reads the returned handle.
+	pub fn install(opts: &mut Options, start: u64) -> Handle {
+		let h = Handle(Arc::new(AtomicU64::new(start)));
+		h.install_into(opts);
+		h
+	}
+}
+
 /// Store control and observers (C01 / C06 / C07 / C10 / C14): deterministic placement of memtable
 /// rotation, flush and compaction rounds on a real `Tree`, and read-only views of its state.
 pub mod store {
